@@ -70,7 +70,7 @@ prop("C02", "A crash at any instant loses no source write; transactional mode re
        "quick": {"checks": 64, "shards": 16, "timeout": 600},
        "thorough": {"checks": 1600, "shards": 16, "timeout": 5400}},
       {"pkg": "c02", "test": "TestC02Keepalive",
-       "quick": {"checks": 16, "shards": 16, "timeout": 900, "shrinktime": "60s"},
+       "quick": {"checks": 32, "shards": 16, "timeout": 900, "shrinktime": "60s"},
        "thorough": {"checks": 640, "shards": 16, "timeout": 7200}}],
      CRASH_ASSUME)
 
@@ -83,7 +83,7 @@ prop("C09", "A source transaction reaches the target as one atomic transaction",
        "quick": {"checks": 48, "shards": 16, "timeout": 600},
        "thorough": {"checks": 1200, "shards": 16, "timeout": 5400}},
       {"pkg": "c09", "test": "TestC09Keepalive",
-       "quick": {"checks": 16, "shards": 16, "timeout": 900, "shrinktime": "60s"},
+       "quick": {"checks": 32, "shards": 16, "timeout": 900, "shrinktime": "60s"},
        "thorough": {"checks": 640, "shards": 16, "timeout": 7200}}],
      CRASH_ASSUME + ["the double executes everything queued by one EXEC under one execution-group id (atomic, like Redis)"])
 
